@@ -201,6 +201,16 @@ PROPS = {
         "partial": ["serde internals and derived decoders are not modelled: the unbounded claim is about hand-written string requests; the rest is the oracle"],
         "assumptions": COMMON_ASSUME,
     },
+    "C19": {
+        "claim": "Over the wire schemas and version string tables translated from the source on every run, Lean proves: no member set is admitted by two predicate formats or by two statement formats (so an accepted document is exactly one format version), the string tables are mutually inverse, and a decoded v0.1 statement's declared type is the version of the contained predicate. Round trips (canonical form parses back equal and byte-identical, timestamps keep instant and sub-second part), declared-type consistency and merge are checked on the real code for generated documents with every optional-field subset and every declared type string.",
+        "level_note": "Trusted: Lean kernel; translate/schema.py (fails closed); serde-derive's field handling (required / deny_unknown_fields) as encoded in Model/Attest.lean; chrono for timestamps (oracle only).",
+        "technique": "Lean 4 theorems (decide over tables translated from the Rust source + a generic disjointness lemma) + round-trip / consistency oracle on the implementation",
+        "translate": "schema.py",
+        "rule": "cases = generated Link v0.2 / SLSA v0.1 / v0.2 predicates, naive and v0.1 statements (declared type matching or not), perturbed documents, and links merged into statements; ops = pred_fmt / stmt_fmt (format candidates by member names) and the version string tables; distinct = distinct op; non-trivial = the document is accepted",
+        "trusted_base": ["serde-derive semantics for required / unknown members (Model/Attest.lean `admits`)", "chrono RFC 3339 parsing / printing (oracle only)"],
+        "partial": ["value-level round trip, timestamp preservation and merge are oracle-only (serde-derive and chrono are not modelled field by field)"],
+        "assumptions": COMMON_ASSUME,
+    },
     "C20": {
         "claim": 'Round trip unpack(pack(t,p)) = (p,t), injectivity of pack and panic-freedom of unpack are Lean theorems over all byte strings; the model is tied to pae_v1.rs by a differential run (random pairs, mutations, exhaustive framing-alphabet scope) and a direct oracle.',
         "level_note": 'Trusted: Lean kernel; hand-written model of pae_pack/pae_unpack validated differentially; str::from_utf8 abstracted as a predicate; usize = 64 bit.',
